@@ -1,6 +1,9 @@
 import ExecModel.Proofs.SysCeil
+import ExecModel.Proofs.SysStart
+import ExecModel.Props.C02
 /-!
-  C07 — Resource ceiling: concurrent execution never exceeds the executor's limits.
+  C07 — Resource ceiling: concurrent execution never exceeds the executor's limits — and no
+  starvation: every accepted request is eventually started.
 
   A worker executes call `i` exactly while its program counter is `.sent i _` (request sent, reply
   not yet received).  `slotsOf cfg c` = cores × threads_per_core of the call as computed by
@@ -45,6 +48,106 @@ example : ∃ s, run exCfg exEval 0 (init exCfg [.submit, .submit, .submit]) exR
     execSum exCfg s = 1 ∧ step exCfg exEval 0 s .dLaunch = none ∧
     (∃ s1, step exCfg exEval 0 s (.wFinish 0) = some s1 ∧ ∃ s2, step exCfg exEval 0 s1 (.dPrune 0) = some s2 ∧
       (step exCfg exEval 0 s2 .dLaunch).isSome) := by
+  refine ⟨_, rfl, ?_⟩
+  decide
+
+/-! ### no starvation
+
+  The other half of the resource property: the ceiling is not kept by never starting anything.
+  "Started" = handed to a worker process = member of the ghost log `sentLog` (grows only at the
+  worker step `wSend`).  A finished future always belongs to a started call (`finished_was_sent`);
+  by the progress theorem (`Props/C02`) every accepted, not cancelled future of a program without
+  failing calls is done at the end of every maximal run.  One case remains in which such a future
+  is done without its call ever having been started, and it is not starvation: an input of the
+  call was cancelled, and the resolver gave the call the cancellation error (`cancelErr`) instead
+  of running it — the second alternative of the theorem (example `exRunC` below shows it occurs). -/
+
+/-- **A finished future belongs to a started call.** -/
+theorem finished_was_started {script : List Cmd} {s : State Val Err}
+    (h : Reachable cfg eval cancelErr script s) {i : Nat} {v : Val} (hf : futOf s i = .finished v) :
+    i ∈ s.sentLog :=
+  Sys.finished_was_sent cfg eval cancelErr h hf
+
+/-- **No starvation**: at the end of every maximal run of a program without failing calls, every
+    accepted call that was not cancelled has been started (handed to a worker process) and has
+    finished — in particular every request that fits the executor's limits is eventually started,
+    whatever the mix of requests; requests above `max_cores` are refused at `submit` (they have no
+    future: `oversized_request_has_no_future`).  The only other outcome: the call was never started
+    because one of its inputs was cancelled (directly, or through an input of the input); its
+    future then holds the cancellation error. -/
+theorem fitting_request_eventually_runs (hnf : NoFail eval) (hwf : WfCfg cfg) (hl : WfLim cfg)
+    {script : List Cmd} {s : State Val Err}
+    (hsc : (script.filter isSubmit).length ≤ cfg.calls.length)
+    (h : Reachable cfg eval cancelErr script s) (hD : pg_depOk cfg s = true)
+    (hst : Stuck cfg eval cancelErr s) (i : Nat) (hi : i < s.nsub) (ha : futOf s i ≠ .absent)
+    (hc : futOf s i ≠ .cancelled ∧ futOf s i ≠ .cancelledNotified) :
+    (i ∈ s.sentLog ∧ ∃ v, futOf s i = .finished v) ∨
+    (i ∉ s.sentLog ∧ futOf s i = .failed cancelErr ∧ ∃ j ∈ depsOf cfg i,
+      futOf s j = .failed cancelErr ∨ futOf s j = .cancelled ∨ futOf s j = .cancelledNotified) := by
+  have hd := C02.no_lost_futures_each_lim cfg eval cancelErr hnf hwf hl hsc h hD hst i hi ha
+  cases hf : futOf s i with
+  | finished v => exact Or.inl ⟨Sys.finished_was_sent cfg eval cancelErr h hf, v, rfl⟩
+  | failed e =>
+    obtain ⟨he, hns, hj⟩ := nofail_failed_never_sent cfg eval cancelErr hnf hwf h hf
+    exact Or.inr ⟨hns, by rw [he], hj⟩
+  | absent => exact absurd hf ha
+  | cancelled => exact absurd hf hc.1
+  | cancelledNotified => exact absurd hf hc.2
+  | pending => rw [hf] at hd; cases hd
+  | running => rw [hf] at hd; cases hd
+
+/-- **No starvation, without cancellation**: if moreover no future is cancelled, every accepted
+    call has been started and has finished at the end of every maximal run. -/
+theorem every_request_runs_without_cancel (hnf : NoFail eval) (hwf : WfCfg cfg) (hl : WfLim cfg)
+    {script : List Cmd} {s : State Val Err}
+    (hsc : (script.filter isSubmit).length ≤ cfg.calls.length)
+    (h : Reachable cfg eval cancelErr script s) (hD : pg_depOk cfg s = true)
+    (hst : Stuck cfg eval cancelErr s)
+    (hnc : ∀ j, futOf s j ≠ .cancelled ∧ futOf s j ≠ .cancelledNotified)
+    (i : Nat) (hi : i < s.nsub) (ha : futOf s i ≠ .absent) :
+    i ∈ s.sentLog ∧ ∃ v, futOf s i = .finished v := by
+  rcases fitting_request_eventually_runs cfg eval cancelErr hnf hwf hl hsc h hD hst i hi ha (hnc i)
+    with h1 | ⟨-, h2, -⟩
+  · exact h1
+  · exact absurd h2 (nofail_nocancel_not_failed cfg eval cancelErr hnf hwf h hnc i cancelErr)
+
+/-- **A request above `max_cores` has no future**: without block allocation `submit` refuses it
+    (`ValueError`), in every reachable state — it never reaches the dispatcher, so it cannot block
+    the requests behind it. -/
+theorem oversized_request_has_no_future {script : List Cmd} {s : State Val Err}
+    (h : Reachable cfg eval cancelErr script s) (hb : cfg.block = none) {mc : Nat}
+    (hm : cfg.maxCores = some mc) {i : Nat} (hbig : mc < slotsOf cfg (cfg.calls.getD i {})) :
+    futOf s i = .absent := by
+  apply Classical.byContradiction
+  intro ha
+  have hF := accFits_reachable cfg eval cancelErr h i ha
+  simp only [submitTooBig, hb, hm, decide_eq_false_iff_not] at hF
+  exact hF hbig
+
+/-! Non-vacuity (first alternative): limit 2, a request of 3 slots is refused at `submit`, the
+    request of 1 slot behind it is started and finishes; the run is maximal. -/
+def exCfgS : Cfg := { resolver := false, block := none, maxCores := some 2,
+                      calls := [{ threads := some 3, hasRes := true }, {}] }
+def exRunS : List (Label Nat Nat) :=
+  [.mSubmitRaise, .mSubmit, .dGet, .dLaunch, .dAck, .wBoot 0, .wGet 0, .wSrn 0, .wSend 0, .wFinish 0,
+   .wAck 0, .wGet 0, .wProcStop 0, .wStopAck 0, .wJoinExit 0]
+
+example : ∃ s, run exCfgS exEval 0 (init exCfgS [.submit, .submit]) exRunS = some s ∧
+    (Sys.enabled exCfgS exEval 0 s).isEmpty = true ∧ pg_depOk exCfgS s = true ∧
+    s.raised = 1 ∧ futOf s 0 = .absent ∧ s.sentLog = [1] ∧ futOf s 1 = .finished 1 := by
+  refine ⟨_, rfl, ?_⟩
+  decide
+
+/-! Non-vacuity (second alternative): call 1 takes the future of call 0, which the user cancels;
+    the resolver fails call 1 with the cancellation error (99) and it is never started. -/
+def exCfgC : Cfg := { resolver := true, block := some 1, calls := [{}, { deps := [0] }] }
+def exRunC : List (Label Nat Nat) :=
+  [.mSubmit, .mSubmit, .mCancel 0, .rGet, .rDecideReady, .rForward, .rAck, .rGet, .rDecideReady,
+   .rFailDep, .rFailSet, .rAck, .wBoot 0, .wGet 0, .wSrn 0, .wAck 0]
+
+example : ∃ s, run exCfgC exEval 99 (init exCfgC [.submit, .submit, .cancel 0]) exRunC = some s ∧
+    (Sys.enabled exCfgC exEval 99 s).isEmpty = true ∧ pg_depOk exCfgC s = true ∧
+    futOf s 0 = .cancelledNotified ∧ futOf s 1 = .failed 99 ∧ s.sentLog = [] := by
   refine ⟨_, rfl, ?_⟩
   decide
 
